@@ -611,7 +611,7 @@ def _find_anchor(body, mask, anchor, nth=1):
     toks = [re.escape(t) for t in anchor.split()]
     rx = re.compile(r'\s*'.join(toks))
     hits = [m for m in rx.finditer(body) if mask[m.start()]]
-    if len(hits) < nth or (len(hits) > 1 and nth == 0):
+    if len(hits) < max(nth, 1) or (len(hits) > 1 and nth == 0):
         raise AnchorLost('statement anchor not found / ambiguous: `%s` (%d hits)' % (anchor, len(hits)))
     return hits[(nth or 1) - 1]
 
@@ -657,12 +657,18 @@ def process_template(unit, tmpl_path, prelude_dir):
         elif d.startswith('item+ '):
             j = i + 1
             ghosts = []
+            pre = []
             while j < n and lines[j].strip() != '//@end':
                 g = lines[j].strip()
-                if not g.startswith('//@ ghost '):
-                    raise Unsupported('%s:%d: only `//@ ghost <field>: <type>` lines allowed in //@item+' % (tmpl_path, j + 1))
-                ghosts.append(g[len('//@ ghost '):].strip())
+                if g.startswith('//@ attr '):
+                    pre.append(g[len('//@ attr '):].strip())
+                elif g.startswith('//@ ghost '):
+                    ghosts.append(g[len('//@ ghost '):].strip())
+                else:
+                    raise Unsupported('%s:%d: only `//@ ghost <field>: <type>` / `//@ attr ..` lines allowed in //@item+' % (tmpl_path, j + 1))
                 j += 1
+            for a_ in pre:
+                unit.emit(a_ + '\n', {'k': 'tmpl', 'line': j, 'file': os.path.basename(tmpl_path)})
             emit_item(unit, d[6:], {'ghosts': ghosts})
             i = j + 1
         elif d.startswith('item '):
